@@ -38,6 +38,11 @@ def C01(tier):
     else:
         c.notes.append("native (-march=native) configuration skipped: cpu lacks avx2+avx512vl+f16c")
     c.compare_digests(runs, "encoded bytes of every value")
+    # the two documented configuration knobs of the split-full families, each alone (asymmetric builds)
+    for knob in ("VARINT_SPLIT_FULL_USE_MAXIMUM_RANGE", "VARINT_SPLIT_FULL_NO_ZERO_USE_MAXIMUM_RANGE"):
+        kw = dict(extra_cflags=("-D" + knob,))
+        c.spec("scalar-rel-" + knob[13:], "rel", "drv_scalar", "c01", count, shards=[1, 6], params=p, build_kw=kw)
+        c.spec("scalar-asan-" + knob[13:], "asan", "drv_scalar", "c01", count, shards=[2], params=p, build_kw=kw)
     fams = ["tagged", "chained", "chainedSimple", "split", "splitFull", "splitFullNoZero", "splitFull16"]
     for f in fams:
         lo = 2 if f == "splitFull16" else 1
@@ -52,6 +57,7 @@ def C01(tier):
     for a in range(16):
         c.require("align.%d" % a, c.stat("align.%d" % a), 1000)
     c.require("signed_negative_cases", c.stat("c01_signed_negative_cases"), 10000)
+    c.require("constant_argument_checks", c.stat("c01_constant_argument_checks"), 100)
     c.assumptions = ["x86-64 little-endian host; the big-endian host branch of varintExternal*.c is not executable here",
                      "fixed widths exercised are the legal ones: external any width >= minimal; tagged minimal, or >= 4 and >= minimal"]
     c.finish(c.stat("cases"), c.extra["per_cfg"].get("distinct_cases@rel", 0),
@@ -70,6 +76,9 @@ def C04(tier):
     c.spec("format-rel", "rel", "drv_scalar", "c04", count, params=p, env={"VERIF_REPO": core.REPO})
     c.spec("format-asan", "asan", "drv_scalar", "c04", count, shards=[0, 7], params=p, env={"VERIF_REPO": core.REPO})
     c.spec("format-dbg", "dbg", "drv_scalar", "c04", count, shards=[0, 3], params=p, env={"VERIF_REPO": core.REPO})
+    for knob in ("VARINT_SPLIT_FULL_USE_MAXIMUM_RANGE", "VARINT_SPLIT_FULL_NO_ZERO_USE_MAXIMUM_RANGE"):
+        c.spec("format-rel-" + knob[13:], "rel", "drv_scalar", "c04", count, shards=[1, 6], params=p, env={"VERIF_REPO": core.REPO},
+               build_kw=dict(extra_cflags=("-D" + knob,)))
     other_builds(c, "format", "drv_scalar", "c04", count, shards=(0, 5), params=p, env={"VERIF_REPO": core.REPO})
     fams = ["tagged", "chained", "chainedSimple", "split", "splitFull", "splitFullNoZero", "splitFull16"]
     for f in fams:
@@ -157,6 +166,7 @@ def C02(tier):
     runs.append(c.spec("array-asan", "asan", "drv_array", "c02", count, shards=sz(tier, [0, 1, 2, 3], [0, 1, 2, 3]), params=p))
     runs.append(c.spec("array-dbg", "dbg", "drv_array", "c02", count, shards=[4, 5], params=p))
     runs.append(c.spec("array-clang", "clang", "drv_array", "c02", count, shards=[6, 7], params=p))
+    runs.append(c.spec("array-sse41", "sse41", "drv_array", "c02", count, shards=[8, 9], params=p))
     c.compare_digests(runs, "encoded bytes of every array (scalar vs SIMD-enabled vs sanitised builds)")
     for name in ARRAY_CODECS:
         c.require("codec." + name, c.stat("codec." + name), 1000)
@@ -176,7 +186,7 @@ def C03(tier):
     c = Check("C03", tier)
     n = sz(tier, 30 * 20_000, 30 * 700_000)
     count = per_shard(n)
-    p = [2000, sz(tier, 3000, 1500)]
+    p = [2000, sz(tier, 3000, 1500), sz(tier, 0, 1)]
     c.spec("bound-asan", "asan", "drv_array", "c03", count, shards=sz(tier, list(range(8)), list(range(8))), params=p)
     c.spec("bound-rel", "rel", "drv_array", "c03", count, params=p)
     c.spec("bound-dbg", "dbg", "drv_array", "c03", count, shards=[8, 9], params=p)
@@ -233,7 +243,7 @@ def C16(tier):
     c = Check("C16", tier)
     n = sz(tier, 27 * 30_000, 27 * 800_000)
     count = per_shard(n)
-    p = [4097, 4000]
+    p = [4097, 1000, sz(tier, 0, 1)]
     c.spec("meta-rel", "rel", "drv_array", "c16", count, params=p)
     c.spec("meta-asan", "asan", "drv_array", "c16", count, shards=[0, 1, 2, 3], params=p)
     c.spec("meta-msan", "msan", "drv_array", "c16", count, shards=[4, 5], params=p)
@@ -352,7 +362,7 @@ def C09(tier):
     c.spec("packed-dbg", "dbg", "drv_packed", "c09", count, shards=[0, 1, 2, 3])
     c.spec("packed-clang", "clang", "drv_packed", "c09", count, shards=[4, 5, 6, 7])
     total = c.maxes.get("instantiations_total", 0)
-    c.require("instantiations_total", total, 106)
+    c.require("instantiations_total", total, 107)
     insts = sorted(k[5:] for k in c.stats if k.startswith("inst."))
     missing = 0
     for name in insts:
@@ -369,6 +379,8 @@ def C09(tier):
     if len(insts) < total:
         c.inconclusive.append("only %d of %d instantiations reported" % (len(insts), total))
     c.require("histories", c.stat("c09_histories"), 2000)
+    c.require("huge_index_writes", c.stat("c09_huge_index_writes"), 200, "(bit offsets >= 2^32 in lazily mapped storage)")
+    c.require("accesses_beyond_index_65535", c.stat("c09_accesses_beyond_index_65535"), 1000)
     c.assumptions = ["legal instantiations: bits <= slotbits + gcd(bits, slotbits); compact only where bits > slotbits (DESIGN.md C09)",
                      "values < 2^bits, SetIncr with non-negative increment and in-range result",
                      "'accesses only the slots the element occupies' is observed for writes everywhere (whole-storage diff) and for reads at the ends of exact-size blocks (ASan)"]
@@ -385,7 +397,7 @@ def C10(tier):
     c = Check("C10", tier)
     n = sz(tier, 60_000, 3_000_000)
     count = per_shard(n)
-    p = [sz(tier, 0, 5000)]
+    p = [sz(tier, 400, 200)]
     c.spec("dim-asan", "asan", "drv_dimension", "c10", count, shards=list(range(8)), params=p)
     c.spec("dim-rel", "rel", "drv_dimension", "c10", count, params=p)
     c.spec("dim-dbg", "dbg", "drv_dimension", "c10", count, shards=[8, 9], params=p)
@@ -401,10 +413,9 @@ def C10(tier):
         c.require("kind." + k, c.stat("kind." + k), 100)
     for k in ("c10_bit_cleared_by_set_false", "c10_toggle_1_to_0", "c10_toggle_0_to_1", "c10_writes_row0", "c10_writes_last_cell", "c10_pack_refusals"):
         c.require(k, c.stat(k), 500)
-    if tier == T:
-        c.require("wide_vector_writes", c.stat("c10_wide_vector_writes"), 100, "(bit vectors with > 2^32 columns, lazily mapped)")
-    else:
-        c.notes.append("column widths 5-8 are covered at header level in the quick tier; cell level (lazily mapped >2^32-column bit vectors) runs in the thorough tier")
+    c.require("wide_vector_writes", c.stat("c10_wide_vector_writes"), 100, "(bit vectors with > 2^32 columns, lazily mapped)")
+    c.require("wide_vector_writes_beyond_4GiB", c.stat("c10_wide_vector_writes_beyond_4GiB"), 20)
+    c.require("buffer_reuse_histories", c.stat("c10_buffer_reuse_histories"), 200)
     c.assumptions = ["cols >= 1; Pack claims only pairs below 2^32", "byte cells behind 5-8 byte column counts cannot be backed by memory; covered by headers and bit vectors"]
     c.finish(c.stat("cases"), c.extra["per_cfg"].get("distinct_nontrivial@rel", 0),
              "cases cycle through pack/unpack pairs (nibble boundaries, >= 2^32 refusals), all 72 header width combinations "
@@ -420,19 +431,23 @@ BS32 = dict(extra_cflags=("-DVBITS=uint32_t", "-DVBITSVAL=uint32_t"))
 
 def C11(tier):
     c = Check("C11", tier)
-    reps = sz(tier, 8, 256)
-    rounds = sz(tier, 3, 8)
+    reps = sz(tier, 24, 256)
+    rounds = sz(tier, 4, 8)
     n64, n32 = 64 * 64 * rounds, 32 * 32 * rounds
     for tag, kw, n in (("64", {}, n64), ("32", BS32, n32)):
-        c.spec("bits%s-asan" % tag, "asan", "drv_bitstream", "c11", per_shard(n), params=[reps], build_kw=kw)
-        c.spec("bits%s-rel" % tag, "rel", "drv_bitstream", "c11", per_shard(n), params=[reps], build_kw=kw)
-        c.spec("bits%s-dbg" % tag, "dbg", "drv_bitstream", "c11", per_shard(n), params=[reps], build_kw=kw, shards=[0, 1, 2, 3])
-        c.spec("bits%s-clang" % tag, "clang", "drv_bitstream", "c11", per_shard(n), params=[reps], build_kw=kw, shards=[4, 5, 6, 7])
+        pp = [reps, 7]
+        c.spec("bits%s-asan" % tag, "asan", "drv_bitstream", "c11", per_shard(n), params=pp, build_kw=kw)
+        c.spec("bits%s-rel" % tag, "rel", "drv_bitstream", "c11", per_shard(n), params=pp, build_kw=kw)
+        c.spec("bits%s-dbg" % tag, "dbg", "drv_bitstream", "c11", per_shard(n), params=pp, build_kw=kw, shards=[0, 1, 2, 3])
+        c.spec("bits%s-clang" % tag, "clang", "drv_bitstream", "c11", per_shard(n), params=pp, build_kw=kw, shards=[4, 5, 6, 7])
+        if HAVE_NATIVE:
+            c.spec("bits%s-native" % tag, "native", "drv_bitstream", "c11", per_shard(n), params=pp, build_kw=kw, shards=[8, 9, 10, 11])
     c.require("oneword_writes", c.stat("c11_oneword_writes"), 10000)
     c.require("twoword_writes", c.stat("c11_twoword_writes"), 10000)
     c.require("fullwidth_unaligned", c.stat("c11_fullwidth_unaligned"), 1000)
     c.require("signed_roundtrips", c.stat("c11_signed_roundtrips"), 10000)
     c.require("append_sequences", c.stat("c11_append_sequences"), 50)
+    c.require("huge_stream_writes", c.stat("c11_huge_stream_writes"), 100, "(offsets >= 2^32 in lazily mapped streams)")
     c.require("pairs_enumerated_rel", c.extra["per_cfg"].get("distinct_nontrivial@rel", 0), 64 * 64 + 32 * 32)
     c.assumptions = ["word types: the two documented ones (uint64_t default; VBITS=VBITSVAL=uint32_t)", "value < 2^width; PrepareSigned applied to negative values only"]
     c.finish(c.stat("c11_writes"), c.extra["per_cfg"].get("distinct_nontrivial@rel", 0),
@@ -463,6 +478,8 @@ def C14(tier):
             c.require("kind.%s.%s" % (ep, k), c.stat("kind.%s.%s" % (ep, k)), 300)
     c.require("truncations", c.stat("c14_truncations"), 50000)
     c.require("dict_wrapping_count_inputs", c.stat("c14_dict_wrapping_count_inputs"), 1000)
+    c.require("dictionaries_over_65536_entries", c.stat("c14_dictionaries_over_65536_entries"), 20)
+    c.require("elias_reader_histories", c.stat("c14_elias_reader_histories"), 10000)
     c.assumptions = ["every input is an exact-size heap copy of exactly the declared bytes (ASan red zone at the declared size)",
                      "Elias bit counts that are not multiples of 8: the remaining bits of the last byte are checked by running with them 0 and 1",
                      "allocation cap per call: max(16 MiB, 64 x declared length), observed by a link-time malloc wrapper",
@@ -559,6 +576,11 @@ def C17(tier):
                               params=[T_, rounds], env=tsan_env, timeout=3000))
         handles.append(c.spec("threads-rel-%d" % T_, "rel", "drv_threads", "c17", 1, nshards=4, shards=[0, 1, 2, 3], params=[T_, rounds * 4], timeout=3000))
     handles.append(c.spec("threads-dbg-8", "dbg", "drv_threads", "c17", 1, nshards=4, shards=[0], params=[8, rounds], timeout=3000))
+    if HAVE_NATIVE:
+        # SIMD-enabled, NDEBUG build under TSan and plain: code that exists only when __AVX2__ is defined
+        for T_ in (4, 8):
+            handles.append(c.spec("threads-tsanN-%d" % T_, "tsanN", "drv_threads", "c17", 1, nshards=4, shards=[0, 1], params=[T_, rounds], env=tsan_env, timeout=3000))
+        handles.append(c.spec("threads-native-8", "native", "drv_threads", "c17", 1, nshards=4, shards=[0, 1], params=[8, rounds * 2], timeout=3000))
     if tier == T:
         handles.append(c.spec("threads-helgrind-4", "dbg", "drv_threads", "c17", 1, nshards=4, shards=[0], params=[4, 2], timeout=3400,
                               wrapper=["valgrind", "-q", "--tool=helgrind", "--history-level=approx"]))
@@ -635,7 +657,7 @@ def _resolve_sites(exe, addrs):
 
 def C18(tier):
     c = Check("C18", tier, level="fault_enumeration")
-    variants = 266
+    variants = 306
     reps = sz(tier, 3, 30)
     count = per_shard(variants * reps)
     h1 = c.spec("oom-asanR", "asanR", "drv_oom", "c18", count, build_kw=OOM_KW, timeout=3000)
